@@ -648,6 +648,7 @@ static void *c06_root(void *arg) {
 	for (int a = 0; a < actors; a++) sim_join_fiber(ids[a]);
 	if (sim_violated()) return NULL;
 	/* quiescence: let everything that must fire, fire (periodic timers bound the horizon) */
+	sim_fair_finish();
 	sim_wait_idle(100000000ull);
 	for (int s = 0; s < MAX_REG && !sim_violated(); s++) {
 		reg *r = &R[s];
